@@ -7,10 +7,12 @@ CONSTANTS
   Outcomes = {"sct"}
   MayCancel = TRUE
   WaitForInflight = TRUE
+  Sessions <- FullSessions
+  RecomputeVerdict = FALSE
 INIT TraceInit
 NEXT TraceNext
 VIEW TraceView
 CONSTRAINT HighWater
-INVARIANTS TraceNeedsAccount
+INVARIANTS TraceNeedsAccount TraceOnlyAnswers
 POSTCONDITION TraceAccepted
 CHECK_DEADLOCK FALSE
